@@ -34,6 +34,17 @@ def walk_tasks(count, cfgs, chunks=32, min_len=4, max_len=40, **kw):
     return split_tasks("walk", params, count, [], cfgs, chunks=chunks, cfg_mode="rotate", **kw)
 
 
+BOUNDARY_CHARS = ([chr(c) for c in (9, 10, 13, 11, 12, 1, 31, 32, 33, 39, 47, 48, 57, 58, 64, 65, 70, 71, 90, 91, 95, 96, 97, 102, 103, 122, 123, 125, 127, 128, 160,
+                                     0x2028, 0x2FFF, 0x3000, 0x3001, 0x303F, 0xFEFF, 0xFFFD, 0x1F603)]
+                  + list("abe;:=.,()[]<>+-*/@^#$%&{}!?~|`") + [chr(39), chr(34), "//", "{$", "(*", "*)", chr(39) * 3, "begin", "end", "asm", "\n", "\n", " ", " "])
+
+
+def char_tasks(count, cfgs, chunks=32, **kw):
+    """random texts over single characters from every class boundary of the lexical rules ("arbitrary text")"""
+    params = {"alphabet": BOUNDARY_CHARS, "count": count, "seed": SEED + 17, "min_len": 1, "max_len": 30, "raw": True}
+    return split_tasks("walk", params, count, [], cfgs, chunks=chunks, cfg_mode="rotate", **kw)
+
+
 def seed_tasks(cfgs, chunks=32, **kw):
     n = suite_len("seeds", {})
     return split_tasks("seeds", {}, n, [], cfgs, chunks=chunks, wrap_hint=True, **kw)
@@ -75,8 +86,8 @@ def replay(prop, path):
 
 # =====================================================================================================  C13
 
-LEXER_MC = {"quick": ["gen3", "str5", "num4", "dir4", "asm4", "word4"],
-            "thorough": ["gen3", "gen4", "str5", "str7", "num5", "dir6", "asm6", "word5"]}
+LEXER_MC = {"quick": ["gen3", "bnd3", "str5", "num4", "dir4", "asm4", "word4"],
+            "thorough": ["gen3", "bnd3", "gen4", "str5", "str7", "num5", "dir6", "asm6", "word5"]}
 
 
 def lexer_mc_and_replay(c, tier, limit_replay=None):
@@ -133,6 +144,7 @@ def c13(tier):
     tasks = seed_tasks("default", sample_every=Q(tier, 7, 3))
     tasks += splice_tasks(Q(tier, 3000, 100000), "default", sample_every=Q(tier, 97, 997))
     tasks += walk_tasks(Q(tier, 20000, 1000000), "default", sample_every=Q(tier, 197, 9973))
+    tasks += char_tasks(Q(tier, 100000, 3000000), "default", sample_every=Q(tier, 499, 49999))
     t2, _ = soup_tasks("full", 2, "default", sample_every=Q(tier, 211, 101))
     c.explore(tasks + t2, "corpus", props, sample_cap=Q(tier, 400, 2500))
     c.exhaustive = True
@@ -189,6 +201,7 @@ def c04(tier):
         tasks += trunc_tasks("six", Q(tier, 7, 1))
         tasks += splice_tasks(Q(tier, 4000, 60000), "six")
         tasks += walk_tasks(Q(tier, 20000, 300000), "six")
+        tasks += char_tasks(Q(tier, 60000, 1000000), "six")
         tasks += seed_tasks("wide" if tier == "thorough" else "six")
         tasks += split_tasks("scaled", {"max_k": Q(tier, 30, 60)}, Q(tier, 30, 60) * 8, [], "six", chunks=16)
         c.explore(tasks, f"soup_{label}", props, vh=vh, timeout_ms=Q(tier, 2000, 10000), sample_cap=Q(tier, 60, 300))
@@ -214,6 +227,7 @@ def basic_corpus(tier, cfgs_soup="six", sample=True):
     tasks += trunc_tasks(cfgs_soup, Q(tier, 5, 1), sample_every=s(499, 997))
     tasks += splice_tasks(Q(tier, 4000, 60000), cfgs_soup, sample_every=s(199, 997))
     tasks += walk_tasks(Q(tier, 20000, 300000), cfgs_soup, sample_every=s(997, 4999))
+    tasks += char_tasks(Q(tier, 60000, 1500000), cfgs_soup, sample_every=s(1999, 49999))
     tasks += seed_tasks("wide" if tier == "thorough" else "six", sample_every=s(41, 97))
     return tasks
 
@@ -221,6 +235,8 @@ def basic_corpus(tier, cfgs_soup="six", sample=True):
 def c01(tier):
     build(("release",))
     c = Check("C01", tier, "model_checking")
+    mlstring_mc_and_replay(c, tier)
+    comment_mc_and_replay(c, tier)
     c.explore(basic_corpus(tier), "corpus", ["C01"], sample_cap=Q(tier, 250, 1500))
     return c.finish(
         rule="token soup (exhaustive to length 2 over the full alphabet, 3 over the structural one; thorough 3 full), truncated and spliced seeds, random walks, seeds; rotating configurations. "
@@ -383,6 +399,8 @@ def gen_tasks(tier, cfgs, **kw):
 def c02(tier):
     build(("release",))
     c = Check("C02", tier, "model_checking")
+    comment_mc_and_replay(c, tier)
+    mlstring_mc_and_replay(c, tier)
     tasks = program_tasks(tier, Q(tier, "six", "wide"), [PLAIN, MIXED, COMMENTS, DIRECTIVES, ONELINE, ALLBREAKS, CRLFTABS, CRONLY, CRCOMMENTS], cfg_mode="rotate", sample_every=Q(tier, 199, 1999))
     tasks += seed_tasks(Q(tier, "six", "wide"), sample_every=Q(tier, 97, 997))
     c.explore(tasks, "rescan", ["C02", "C13"], sample_cap=Q(tier, 150, 800))
@@ -433,9 +451,70 @@ def c07(tier):
              "the byte string of every region computed by the specification's recogniser (Toggle.tla mirror) from the scanned input must occur in the output, in order, and the set of tokens the formatter treats as verbatim must be exactly the regions plus asm instruction lines")
 
 
+def mlstring_mc_and_replay(c, tier):
+    """MC of the literal machine (MC_MLString) and replay of every enumerated literal through the real formatter."""
+    runs = Q(tier, ["MC_MLString.cfg", "MC_MLString_q5.cfg"], ["MC_MLString_7.cfg", "MC_MLString_q5.cfg"])
+    c.mc("MC_MLString", "MC_MLString_bug.cfg", expect_violation=True, workers=4, timeout=900)
+    for cfgname in runs:
+        r = c.mc("MC_MLString", cfgname, workers=8, timeout=3000)
+        beh = [p for t, p in r["replay"]]
+        bf = os.path.join(WORK, f"{c.prop}_{cfgname}.beh.ndjson")
+        mf = os.path.join(WORK, f"{c.prop}_{cfgname}.mismatch.ndjson")
+        write_ndjson(bf, beh)
+        rr = run([VH, "replay", "mlstring", bf, mf], timeout=3000)
+        st = json.loads(rr.stdout.strip().splitlines()[-1])
+        c.extra["literals_replayed"] = c.extra.get("literals_replayed", 0) + st["replayed"]
+        c.traces_validated += st["replayed"]
+        c.evaluations += st["replayed"] * 12
+        if beh and len(c.samples) < 3:
+            c.samples.append({"literal_behaviour": beh[len(beh) // 3]})
+        drift = 0
+        for m in read_ndjson(mf):
+            if m["t"] == "viol":
+                if m["prop"] in (c.prop, "C12") or (c.prop == "C01" and m["prop"] == "C01"):
+                    if m["prop"] == c.prop:
+                        c.add_violation({"prop": m["prop"], "clause": m["clause"], "detail": m["detail"], "case": {"text": m["text"], "cfg": m.get("cfg"), "label": "MC_MLString literal"}, "confirmed_by_tlc": True})
+            else:
+                drift += 1
+                if len(c.drift) < 5:
+                    c.drift.append(m)
+        if drift:
+            c.notes.append(f"MODEL-DRIFT MLString ({cfgname}): {drift} literals are rewritten differently from the model (no property clause violated)")
+            c.extra["model_drift_MLString"] = c.extra.get("model_drift_MLString", 0) + drift
+
+
+def comment_mc_and_replay(c, tier):
+    """MC of the comment / directive normalisations (Comment.tla) and replay of every enumerated token."""
+    c.mc("MC_Comment", "MC_Comment_bug.cfg", expect_violation=True, workers=4, timeout=600)
+    for name in Q(tier, ["line4", "doc3", "sep", "dir5"], ["line5", "doc3", "sep", "dir6"]):
+        r = c.mc("MC_Comment", f"MC_Comment_{name}.cfg", workers=8, timeout=3000)
+        beh = [p for t, p in r["replay"]]
+        bf = os.path.join(WORK, f"{c.prop}_comment_{name}.beh.ndjson")
+        mf = os.path.join(WORK, f"{c.prop}_comment_{name}.mismatch.ndjson")
+        write_ndjson(bf, beh)
+        rr = run([VH, "replay", "comment", bf, mf], timeout=3000)
+        st = json.loads(rr.stdout.strip().splitlines()[-1])
+        c.extra["comment_tokens_replayed"] = c.extra.get("comment_tokens_replayed", 0) + st["replayed"]
+        c.traces_validated += st["replayed"]
+        c.evaluations += st["replayed"] * 2
+        drift = 0
+        for m in read_ndjson(mf):
+            if m["t"] == "viol":
+                if m["prop"] == c.prop:
+                    c.add_violation({"prop": m["prop"], "clause": m["clause"], "detail": m["detail"], "case": {"text": m["text"], "label": f"MC_Comment_{name}"}, "confirmed_by_tlc": True})
+            else:
+                drift += 1
+                if len(c.drift) < 5:
+                    c.drift.append(m)
+        if drift:
+            c.notes.append(f"MODEL-DRIFT Comment ({name}): {drift} tokens are normalised differently from the model (no property clause violated)")
+            c.extra["model_drift_Comment"] = c.extra.get("model_drift_Comment", 0) + drift
+
+
 def c12(tier):
     build(("release",))
     c = Check("C12", tier, "model_checking")
+    mlstring_mc_and_replay(c, tier)
     cfgs = [{"format_multiline_strings": f, "line_ending": le, "use_tabs": t, "tab_width": tw, "wrap_column": w}
             for (f, le, t, tw, w) in [(True, "lf", False, 2, 120), (True, "crlf", False, 4, 40), (False, "lf", False, 2, 120), (True, "lf", True, 2, 30), (False, "crlf", True, 2, 60)]]
     tasks = program_tasks(tier, cfgs, [PLAIN, MIXED, CRLFTABS], cfg_mode="rotate", sample_every=Q(tier, 499, 4999))
